@@ -131,7 +131,59 @@ def c11(ctx):
     R.r_no_interior_mutability(ctx, db)
 
 
+def quantile_est(ctx, cfg="B"):
+    import quantile_rules as Q
+    db = ctx.db(cfg)
+    e = Est(db, Q.QPATH)
+    if not e.exists() or not e.add or not e.new:
+        ctx.floor("Quantile type with new/add present", 0, 1)
+        return None, None, None
+    roles, _ = Q.role_fields(db, e)
+    if set(roles) != {"q", "n", "m", "dm"}:
+        ctx.ob("R-P2", "roles", Q.QPATH, "-", False, "cannot identify heights/positions/desired/increments arrays from new(p): %s" % roles, inc=True)
+        return None, None, None
+    return db, e, roles
+
+
+def c05(ctx):
+    import quantile_rules as Q
+    db, e, roles = quantile_est(ctx)
+    if e is None:
+        return
+    Q.r_p2_init(ctx, db, e, roles)
+    n = Q.r_p2_step(ctx, db, e, roles)
+    ctx.floor("abstract paths of Quantile::add (>= 5 observations) compared with the specification", n, 100)
+
+
+def c07(ctx):
+    import quantile_rules as Q
+    db, e, roles = quantile_est(ctx)
+    if e is None:
+        return
+    grid = [k / 8.0 for k in range(0, 9)] if ctx.tier == "quick" else sorted(set([k / 16.0 for k in range(0, 17)] + [k / 3.0 for k in range(4)] + [0.1, 0.3, 0.7, 0.9, 1e-9, 1 - 1e-9]))
+    n = Q.r_small_quantile(ctx, db, e, roles, grid)
+    ctx.floor("(n, p) grid cases of the small-sample quantile", n, 36)
+
+
+def c15(ctx):
+    import quantile_rules as Q
+    db, e, roles = quantile_est(ctx)
+    if e is None:
+        return
+    Q.r_quantile_ctor(ctx, db, e)
+    R.r_count(ctx, db, e, "B", expect_merge=False, check_add=False)
+    Q.r_count_small(ctx, db, e, roles)
+    # extreme markers and the count follow the specified step
+    Q.r_p2_step(ctx, db, e, roles, only={("q", 0), ("q", 4), ("n", 4), ("dm", 0), ("dm", 1), ("dm", 2), ("dm", 3), ("dm", 4)},
+                rule="R-P2", label=":extremes")
+    Q.r_p2_init(ctx, db, e, roles)
+    R.r_sentinel(ctx, db, e, "Quantile", ctor_args=quantile_ctor)
+
+
 PROPS = {
+    "C05": {"run": c05, "level": "other", "explanation": "P2 step"},
+    "C07": {"run": c07, "level": "other", "explanation": "small sample"},
+    "C15": {"run": c15, "level": "other", "explanation": "bookkeeping"},
     "C11": {"run": c11, "level": "proof", "explanation": "merge identity"},
     "C16": {"run": c16, "level": "proof", "explanation": "sentinel table"},
     "C02": {"run": c02, "level": "other", "explanation": "merge laws"},
